@@ -677,9 +677,34 @@ impl<'a> Gen<'a> {
                 self.push(name, vec![k, l])
             }
             "equal?" => {
-                let a = self.any();
-                let b = self.any();
-                self.push(name, vec![a, b])
+                // half of the time compare an object with a structurally equal copy built through a DIFFERENT
+                // route (scalars unboxed in a vector literal vs boxed when they come out of a list, fresh pairs
+                // vs shared ones): equal? must not depend on how its arguments were produced
+                let vs = self.slots_where(|k| matches!(k, Kind::Vec { .. }));
+                let ps = self.slots_where(|k| matches!(k, Kind::Pair { proper: true, .. }));
+                if !vs.is_empty() && self.rng.chance(1, 3) {
+                    let v = *self.rng.pick(&vs);
+                    self.push("vector->list", vec![Arg::Pool(v)]);
+                    let l = self.n() - 1;
+                    self.push("list->vector", vec![Arg::Pool(l)]);
+                    let w = self.n() - 1;
+                    if self.rng.chance(1, 2) {
+                        self.push(name, vec![Arg::Pool(v), Arg::Pool(w)])
+                    } else {
+                        self.push(name, vec![Arg::Pool(w), Arg::Pool(v)])
+                    }
+                } else if !ps.is_empty() && self.rng.chance(1, 3) {
+                    let l = *self.rng.pick(&ps);
+                    self.push("list->vector", vec![Arg::Pool(l)]);
+                    let v = self.n() - 1;
+                    self.push("vector->list", vec![Arg::Pool(v)]);
+                    let l2 = self.n() - 1;
+                    self.push(name, vec![Arg::Pool(l), Arg::Pool(l2)])
+                } else {
+                    let a = self.any();
+                    let b = self.any();
+                    self.push(name, vec![a, b])
+                }
             }
             "map" => {
                 let (f, arity): (&str, usize) = *self.rng.pick(&[
